@@ -155,6 +155,13 @@ def run(chk, repo, tier):
         ws_ = [w for w in eff.summary(fr_).writes if w.param == 'self']
         chk.ob('C17-e', 'E-ownership', fr_.key, 'no write reaches the original plane', not ws_,
                '; '.join(f'{w.how} on {w.detail} at {w.loc}' for w in ws_[:3]), fr_.loc())
+        # ... and what comes back is a plane of its own on every path: the result of rescale (a copy), never the plane itself
+        _, rp_, _ = analyse(repo, fr_)
+        same = [q for q in returns(rp_) if q.ret == S('self')]
+        chk.ob('C17-e', 'E-ownership', fr_.key, 'the resampled plane is a new plane on every path (never the plane itself)',
+               (not same) if returns(rp_) else None,
+               (f'[{conds_str(same[0])[:80]}] returns self: what is done to the "resampled" plane afterwards (an in-place tilt fit, '
+                'an edited OPD) is done to the original') if same else '', fr_.loc())
     # segmented branch: one rescale per segment
     seg_ok = False
     for p in rets:
